@@ -52,6 +52,9 @@ def kres {α} (r : KRes α) (f : α → String) : String :=
   | .ok a => "ok" ++ f a
   | .error e => "err:" ++ e.name
 
+def showAudit (l : List (String × String)) : String :=
+  " audit=[" ++ String.intercalate ";" (l.map fun p => p.1 ++ ":" ++ p.2) ++ "]"
+
 def sortStrs (l : List String) : List String := (l.toArray.qsort (· < ·)).toList
 
 /-! headers -/
@@ -106,25 +109,27 @@ def step (st : St) (j : Json) : St × List String :=
     let (s', r) := new s (jStr j "keyName") naming
     ({ store := s' }, ["new " ++ (match r with
       | .ok (kid, ref, k) => s!"ok kid={kid} name={ref.keyName} ver={ref.version} key=K{k}"
-      | .error e => s!"err:{e.name} key=K{s.nextKey}")])
+      | .error e => s!"err:{e.name} key=K{s.nextKey}") ++ showAudit (auditOf validStr s (.op (.new (jStr j "keyName") naming)))])
   | "link" =>
     let (s', r) := link s (jStr j "kid") (jStr j "keyName") (jStr j "version")
-    ({ store := s' }, ["link " ++ kres r (fun _ => "")])
+    ({ store := s' }, ["link " ++ kres r (fun _ => "") ++ showAudit []])
   | "delete" =>
     let (s', r) := delete validStr s (jStr j "kid")
-    ({ store := s' }, ["delete " ++ kres r (fun _ => "")])
-  | "migrate" => ({ store := migrate s }, ["migrate ok"])
+    ({ store := s' }, ["delete " ++ kres r (fun _ => "") ++ showAudit (auditOf validStr s (.op (.delete (jStr j "kid"))))])
+  | "migrate" => ({ store := migrate s }, ["migrate ok" ++ showAudit []])
   | "plant" =>
     match wSave validStr s (jStr j "keyName") with
     | .ok (s', k) => ({ store := s' }, [s!"plant ok key=K{k}"])
     | .error e => (st, ["plant err:" ++ e.name])
-  | "sign" => (st, [s!"sign {jStr j "how"} " ++ kres (signKey validStr s (jStr j "kid")) (fun k => s!" verifies=[K{k}]")])
-  | "resolve" => (st, ["resolve " ++ kres (resolve validStr s (jStr j "kid")) (fun k => s!" key=K{k}")])
+  | "sign" => (st, [s!"sign {jStr j "how"} " ++ kres (signKey validStr s (jStr j "kid")) (fun k => s!" verifies=[K{k}]")
+      ++ showAudit (auditOf validStr s (.sign (jStr j "how") (jStr j "kid") (jStr j "iss") (jStr j "sub")))])
+  | "resolve" => (st, ["resolve " ++ kres (resolve validStr s (jStr j "kid")) (fun k => s!" key=K{k}") ++ showAudit []])
   | "exists" => (st, [s!"exists {keyExists s (jStr j "kid")}"])
   | "list" => (st, [s!"list [{String.intercalate "," (sortStrs (list s))}]"])
   | "files" => (st, [s!"files [{String.intercalate "," (sortStrs (s.backend.map (·.1)))}]"])
-  | "decrypt" => (st, ["decrypt " ++ kres (decrypt validStr s (jStr j "kid") (jNat j "encFor")) (fun _ => "")])
-  | "decryptjwe" => (st, ["decryptjwe " ++ kres (decryptJWE validStr s (jStr j "kid") (jNat j "encFor")) (fun _ => "")])
+  | "decrypt" => (st, ["decrypt " ++ kres (decrypt validStr s (jStr j "kid") (jNat j "encFor")) (fun _ => "") ++ showAudit []])
+  | "decryptjwe" => (st, ["decryptjwe " ++ kres (decryptJWE validStr s (jStr j "kid") (jNat j "encFor")) (fun _ => "")
+      ++ showAudit (auditOf validStr s (.decryptJWE (jStr j "kid") (jNat j "encFor")))])
   -- headers
   | "signjws" =>
     let h := parseHeaders j
